@@ -165,7 +165,7 @@ def r014(ctx):
                         pp = pp["pat"]
                     if pp.get("k") in ("pvariant", "pconst", "ppath") and peel(strip_try(c_["scrut"])).get("k") in ("blockexpr", "match", "if", "local"):
                         alts = []
-                        for cs_, lf in norm_.result_table(ix, strip_try(c_["scrut"])):
+                        for cs_, lf in norm_.result_table(ix, strip_try(c_["scrut"]), unwrap=()):
                             lf = peel(lf)
                             lp = lf.get("path") if lf.get("k") == "def" else (callee(lf) if lf.get("k") == "ctor" else None)
                             if lp is None:
